@@ -370,11 +370,24 @@ def scenario_server(exe, r, idx):
 
         sim.peers[client] = peer
         sim.peers[stranger] = lambda *a: None
+        sim.peers["10.0.8.3:40001"] = lambda *a: None
         req = cw.encode(cw.msg(1, type=0, mid=0x1111, token=b"\x77", options=[(11, b"s")]), "udp")
         sim.inject(client, "10.0.0.1:5683", req)
+        mc = r.random() < 0.4
+        if mc:
+            # a multicast request arrives while the separate response is in flight: its answer
+            # is delayed (leisure) and goes through the same send queue as the Confirmable
+            sim.cmd("res 0 %s body=fixed:6d" % b"m".hex())
+            for j in range(r.choice([1, 2])):
+                # (from a third peer: a session's local address follows the last datagram, and
+                # the virtual sockets would show the Confirmable's retransmission as coming
+                # "from" the group address, which a real stack never does)
+                sim.inject("10.0.8.3:40001", "224.0.1.187:5683", cw.encode(
+                    cw.msg(1, type=1, mid=0x2200 + j, token=bytes([0x78, j]), options=[(11, b"m")]),
+                    "udp"), r.choice([40, 600, 1200, 2600, 5000]))
         lo, hi = p.t_bounds()
         sim.run(horizon=int(hi * (2 ** (mr + 1))) + 700000)
-        sig = ("server", at, arf, mr, pin, kind, k)
+        sig = ("server", at, arf, mr, pin, kind, k, mc)
         return sim, w, (lambda a: p if a == "10.0.0.1:5683" else None), sig
     except Exception:
         w.close(kill=True)
